@@ -83,7 +83,14 @@ Print Assumptions C18_ready_to_run.
    VIRTUAL task with an unfinished parent -- in the states described by frontier_sane (Model/TaskGraph.v):
    every runtime positive, RUNNING / PREEMPTED tasks have time left, SCHEDULED tasks complete in the future,
    no conditional task, and every VIRTUAL task with an unfinished parent hangs (hereditarily) below a task
-   that is RELEASED / SCHEDULED / RUNNING / PREEMPTED *)
+   that is RELEASED / SCHEDULED / RUNNING / PREEMPTED.
+   KNOWN CAVEAT (finding F36 of the whole-simulation check): the hypothesis `a SCHEDULED task completes in the
+   future` (frontier_sane: time < expected_start + remaining for every SCHEDULED task) is NOT guaranteed by
+   the simulator: while a placement is retried (WORKER_NOT_READY) the task stays SCHEDULED with a placement
+   time in the past, its estimate expected_start + remaining lies in the past, and its VIRTUAL child IS
+   offered to FIFO / EDF / LSF although the parent has not even started.  That is exactly the refutation
+   C18_no_plan_ahead_overdue_refuted below (witness corpus/C18 `overdue_scheduled_parent`, replayed on the
+   real code by S-taskgraph on every run). *)
 Theorem C18_no_plan_ahead : forall g o draws fr d' x, tg_schedulable g o draws = Ok (fr, d') ->
   so_lookahead o = 0 -> so_retract o = false -> so_release_tg o = false -> so_placed o = None ->
   frontier_sane g (so_time o) = true ->
